@@ -85,10 +85,50 @@ theorem C18_saturates (vals : List (List Nat)) (d : Nat) (h : parse vals = some 
     · injection h with h; subst h; unfold specValue; split <;> omega
     · simp at h
 
+/-- only the last `grpc-timeout` value counts: earlier values neither add nor
+    remove a deadline (the code reads `vals[len(vals)-1]`) -/
+theorem C18_last_wins (hs : List (List Nat)) (v : List Nat) :
+    parse (hs ++ [v]) = parse [v] := by
+  simp [parse]
+
+/-- exactness below the range limit, stated without `min`: digits `ds`, unit
+    `u` worth `ns` nanoseconds, product representable ⇒ exactly the product -/
+theorem C18_exact (hs : List (List Nat)) (ds : List Nat) (u ns : Nat)
+    (hw : wellFormed (ds ++ [u]) = true) (hu : unitNs u = some ns)
+    (hfit : natOfDigits ds * ns ≤ maxDur) :
+    parse (hs ++ [ds ++ [u]]) = some (natOfDigits ds * ns) := by
+  rw [C18_wellformed hs _ hw]
+  simp [specValue, hu, Nat.min_eq_left hfit]
+
+/-- saturation, stated without `min`: product beyond the range ⇒ exactly the
+    largest representable duration (never a wrapped, shorter one) -/
+theorem C18_clamped (hs : List (List Nat)) (ds : List Nat) (u ns : Nat)
+    (hw : wellFormed (ds ++ [u]) = true) (hu : unitNs u = some ns)
+    (hbig : maxDur ≤ natOfDigits ds * ns) :
+    parse (hs ++ [ds ++ [u]]) = some maxDur := by
+  rw [C18_wellformed hs _ hw]
+  simp [specValue, hu, Nat.min_eq_right hbig]
+
+/-- the deadline is monotone in the encoded number: with the same unit, a
+    numerically larger value never yields a shorter deadline (a wrap-around
+    in the multiplication would break exactly this) -/
+theorem C18_monotone (ds ds' : List Nat) (u : Nat)
+    (h : natOfDigits ds ≤ natOfDigits ds') :
+    specValue (ds ++ [u]) ≤ specValue (ds' ++ [u]) := by
+  simp only [specValue, List.getLast?_append, List.getLast?_singleton, Option.some_or,
+    List.dropLast_concat]
+  have := Nat.mul_le_mul_right ((unitNs u).getD 0) h
+  omega
+
 -- non-vacuity: "20S" is well-formed and means 20 s; "99999999H" saturates; "-5S" is malformed
 example : parse [[50, 48, 83]] = some 20000000000 := by decide
 example : wellFormed [57,57,57,57,57,57,57,57,72] = true ∧
     parse [[57,57,57,57,57,57,57,57,72]] = some maxDur := by decide
 example : wellFormed [45, 53, 83] = false ∧ parse [[45, 53, 83]] = none := by decide
+-- C18_exact / C18_clamped premises are satisfiable: "20S" fits, "99999999H" does not
+example : wellFormed ([50, 48] ++ [83]) = true ∧ unitNs 83 = some 1000000000 ∧
+    natOfDigits [50, 48] * 1000000000 ≤ maxDur := by decide
+example : wellFormed ([57,57,57,57,57,57,57,57] ++ [72]) = true ∧ unitNs 72 = some 3600000000000 ∧
+    maxDur ≤ natOfDigits [57,57,57,57,57,57,57,57] * 3600000000000 := by decide
 
 end Proofs.C18
